@@ -327,7 +327,12 @@ impl Directive {
                     if let Operand::S(include) = &values[0] {
                         let path = PathBuf::from(include);
                         let path = if path.is_relative() {
-                            let mut current_path = current_path.parent().unwrap().to_path_buf();
+                            // (the body of a macro is not tied to a file: relative to the
+                            // current directory there)
+                            let mut current_path = current_path
+                                .parent()
+                                .map(|p| p.to_path_buf())
+                                .unwrap_or_default();
                             current_path.push(path);
                             current_path
                         } else {
